@@ -47,7 +47,7 @@ impl Writer {
   }
   pub(crate) fn verif_digest(&self) -> String {
     format!(
-      "hist=[{}..{}] sns={:?} hbc={:?} waiter={:?} readers={:?} tot={} inc={}",
+      "hist=[{}..{}] sns={:?} hbc={:?} waiter={:?} readers={:?} tot={} inc={} armed={:?}",
       i64::from(self.history_buffer.first_seq),
       i64::from(self.history_buffer.last_seq),
       self.verif_history_sns(),
@@ -63,6 +63,42 @@ impl Writer {
         .collect::<Vec<_>>(),
       self.matched_readers_count_total,
       self.requested_incompatible_qos_count,
+      {
+        let mut a: Vec<String> = self.verif_armed().into_iter().filter(|x| x.0.starts_with("repair")).map(|x| format!("{}:{:?}", x.0, x.1)).collect();
+        a.sort();
+        a
+      },
     )
+  }
+
+  /// armed timed events of a virtual timer: (kind, reader)
+  pub(crate) fn verif_armed(&self) -> Vec<(&'static str, Option<GUID>)> {
+    self
+      .timed_event_timer
+      .verif_armed()
+      .into_iter()
+      .map(|e| match e {
+        TimedEvent::Heartbeat => ("heartbeat", None),
+        TimedEvent::CacheCleaning => ("clean", None),
+        TimedEvent::SendRepairData { to_reader } => ("repair", Some(*to_reader)),
+        TimedEvent::SendRepairFrags { to_reader } => ("repair_frags", Some(*to_reader)),
+      })
+      .collect()
+  }
+  /// Let the first armed event of that kind (for that reader) expire and run the real `handle_timed_event`.
+  pub(crate) fn verif_fire(&mut self, kind: &str, reader: Option<GUID>) -> bool {
+    let hit = self.timed_event_timer.verif_fire(|e| match e {
+      TimedEvent::Heartbeat => kind == "heartbeat",
+      TimedEvent::CacheCleaning => kind == "clean",
+      TimedEvent::SendRepairData { to_reader } => kind == "repair" && Some(*to_reader) == reader,
+      TimedEvent::SendRepairFrags { to_reader } => kind == "repair_frags" && Some(*to_reader) == reader,
+    });
+    if hit {
+      self.handle_timed_event();
+    }
+    hit
+  }
+  pub(crate) fn verif_timer_is_virtual(&self) -> bool {
+    self.timed_event_timer.is_virtual()
   }
 }
